@@ -3,7 +3,7 @@
 From Coq Require Import List NArith ZArith Bool Lia ZifyNat ZifyN.
 From SNT Require Import Base.Outcome Image.KDTree Image.Octree Image.Quantize
      Image.KDTreeProofs Image.OctreePath Image.OctreeProofs Image.OctreeExact Image.QuantizeProofs Image.QuantizeExact
-     Image.QuantizeDither.
+     Image.QuantizeDither Gen.TabOctree.
 Import ListNotations.
 
 (* Nearest-colour lookup: for EVERY palette (any length >= 1, duplicates, clustered
@@ -26,12 +26,29 @@ Proof. exact is_nearestb_spec. Qed.
 Theorem C13_octree_path : forall c, rgb_ok c = true -> path_packed c = path_of c.
 Proof. exact path_packed_eq. Qed.
 
+(* Machine words.  The leaf accumulators are modelled with the widths the source declares
+   (Gen/TabOctree.v, regenerated every run; `+=` panics on overflow in the model as in a debug
+   build).  ASSUMPTION of the theorems below: an image has at most max_pixels = 2^56 pixels
+   (2^58 bytes of RGBA, beyond any allocation on 64-bit targets).  Under it no accumulator
+   overflows: 255 * 2^56 < 2^leaf_acc_bits and 2^56 < 2^leaf_count_bits; the k-d distance
+   3 * 255^2 fits its type; Rnd's state is the 32-bit word the model wraps at.  A narrower
+   declared type breaks this theorem (and translate/octree_types.py + props.d/C13.py compute the
+   smallest overflowing image as a failing input). *)
+Theorem C13_machine_words :
+  (forall n, (n <= max_pixels)%N -> (255 * n < leaf_acc_limit /\ n < leaf_count_limit)%N) /\
+  leaf_acc_limit = (2 ^ leaf_acc_bits)%N /\ leaf_count_limit = (2 ^ leaf_count_bits)%N /\
+  (max_pixels < 2 ^ info_leaf_bits /\ max_pixels < 2 ^ info_color_bits /\ max_pixels < 2 ^ info_min_bits /\
+   max_pixels < 2 ^ leaf_index_bits)%N /\
+  (3 * 255 * 255 < 2 ^ kd_dist_bits)%N /\ (255 < 2 ^ kd_color_bits)%N /\
+  rnd_state_bits = 32%N /\ (16 <= color_error_significand_bits)%N.
+Proof. exact machine_words. Qed.
+
 (* Octree pipeline of ColorPalette::from_image: for every non-empty list of byte
    colours and every requested size, insertion never panics, prune_until terminates
    within oc_measure rounds (its fuel) although cached infos go stale, and the
    palette has between 1 and max(k, 8) colours. *)
 Theorem C13_palette : forall (cs : list rgb) (k : N),
-  cs <> [] -> Forall (fun c => rgb_ok c = true) cs ->
+  cs <> [] -> Forall (fun c => rgb_ok c = true) cs -> (N.of_nat (length cs) <= max_pixels)%N ->
   exists t t' pal,
     oc_extend oc_new cs = Ok t /\ prune_until k t = Ok t' /\ build_palette t' = Ok pal /\
     (1 <= length pal)%nat /\ (N.of_nat (length pal) <= N.max k 8)%N.
@@ -63,7 +80,7 @@ Proof. exact kd_find_index. Qed.
 (* If the distinct colours fit max(k, 8) — in particular if they fit the requested
    size k — the octree prunes nothing and the palette contains every colour. *)
 Theorem C13_palette_exact : forall (cs : list rgb) (k : N),
-  Forall (fun c => rgb_ok c = true) cs ->
+  Forall (fun c => rgb_ok c = true) cs -> (N.of_nat (length cs) <= max_pixels)%N ->
   (N.of_nat (length (nodup_rgb cs)) <= N.max k 8)%N ->
   exists t pal,
     oc_extend oc_new cs = Ok t /\ prune_until k t = Ok t /\ build_palette t = Ok pal /\
@@ -129,7 +146,7 @@ Example C13_sampled_nonvacuous :
 Proof.
   cbv zeta. split; [|split].
   - split; [intros H; vm_compute in H; discriminate|]. split; [vm_compute; discriminate|].
-    split; [vm_compute; reflexivity|].
+    split; [vm_compute; reflexivity|]. split; [|apply N.leb_le; vm_compute; reflexivity].
     apply Forall_forall. intros r Hr. apply in_map_iff in Hr. destruct Hr as (y & <- & Hy).
     apply Forall_forall. intros p Hp. apply in_map_iff in Hp. destruct Hp as (x & <- & Hx).
     apply in_seq in Hy. apply in_seq in Hx. unfold px_ok, rgb_ok.
@@ -144,5 +161,5 @@ Example C13_quantize_nonvacuous :
   = Ok ([(1,2,3); (7,7,7); (200,2,3)]%N, [[0; 2]; [0; 1]]%N).
 Proof.
   split; [|vm_compute; reflexivity].
-  repeat split; try discriminate; repeat constructor.
+  repeat split; try discriminate; try (apply N.leb_le; vm_compute; reflexivity); repeat constructor.
 Qed.
